@@ -16,7 +16,7 @@ class C05(InterpProp):
                   "ends the block together with its pending Watches and Alarms; with the /repo fix). Both are invariants "
                   "preserved by each of the ~30 frame transitions, lifted by a transfer theorem. The other clauses (Block tag "
                   "= innermost active block, nothing after a block starts before it ended) are decided by the Coq monitor on "
-                  "the real interpreter; the last one is refuted inside re-arming Alarm bodies (known finding).")
+                  "the real interpreter; the last one is refuted inside re-arming Alarm bodies and inside a Macro body that two calls execute at once (known findings).")
     LEVEL_NOTE = ("Theorems are about coq/model/Interp.v (with macros; injection, cancel / force and live edits are the subject "
                   "of C14, C12 and C01). Theorem (2) assumes that parent pointers and child lists of the method describe the same tree "
                   "(tree_ok_b, evaluated by the monitor on every generated method). Tie: generated methods are parsed by the "
@@ -43,11 +43,16 @@ class C05(InterpProp):
         return max(locked, default=0) >= 1 and any(n[6] for v in obs["views"] for n in v["nodes"])
 
     def classify(self, case, obs):
-        """known: inside the body of a re-arming Alarm, generators of the previous invocation (a nested Watch / Alarm whose
+        """two listed findings, each with its own shape; every offending block must be explained by one of them and nothing
+        else may be wrong (chain and pending-interrupt clauses hold):
+        (a) inside the body of a re-arming Alarm, generators of the previous invocation (a nested Watch / Alarm whose
         interrupt survives the re-arm, or the duplicate run of a nested Alarm) start lines after a block while the block of
-        the new invocation is running, or the re-arm resets a block that holds the lock while the Block tag goes on naming
-        it -- every offending block must lie inside an Alarm body and nothing else may be wrong"""
+        the new invocation is running, or the re-arm resets a block that holds the lock while the Block tag goes on naming it;
+        (b) inside the body of a Macro that two calls execute at the same time (two Call macro lines of its name started and
+        not finished in one view: the second caller joins the run of the first and both advance the same child index)"""
         tab = obs["table"]
+        A, M = ("C05-stale-generator-runs-lines-after-a-block-in-a-rearmed-alarm-body",
+                "C05-concurrent-calls-of-one-macro-share-its-body")
 
         def anc(n):
             out = []
@@ -56,19 +61,39 @@ class C05(InterpProp):
                 out.append(n)
             return out
         blocks = [k for k, t in enumerate(tab) if t["kind"][0] == "KBlock"]
-        seen = False
+        calls = [(k, t["kind"][1]) for k, t in enumerate(tab) if t["kind"][0] == "KCallMacro"]
+        seen = set()
+        concurrent = set()          # macro names that two calls have been executing at once so far
+
+        def explained(x):
+            if any(tab[a]["kind"][0] == "KMacro" and tab[a]["kind"][1] in concurrent for a in anc(x)):
+                return M
+            if any(tab[a]["kind"][0] == "KAlarm" for a in anc(x)):
+                return A
+            return None
         for v in obs["views"]:
             nd = v["nodes"]
+            running = {}
+            for c, nm in calls:
+                if nd[c][0] and not nd[c][1] and not nd[c][2]:
+                    running[nm] = running.get(nm, 0) + 1
+            concurrent |= {nm for nm, k in running.items() if k >= 2}
             locked = [x for x in blocks if nd[x][5]]
             if any(not (a == x or a in anc(x) or x in anc(a)) for a in locked for x in locked):
                 return None
             active = [x for x in locked if not nd[x][6]]
             if v["block"] != (active[-1] if active else None):
-                # explained only if the tag names a block inside an Alarm body that the Alarm's re-arm has reset
+                # explained only if the tag names an unlocked block inside an Alarm body (reset by the re-arm) or the
+                # blocks concerned lie in a concurrently executed Macro body
                 named = v["block"]
-                if named is None or named < 0 or nd[named][5] or not any(tab[a]["kind"][0] == "KAlarm" for a in anc(named)):
+                if named is not None and named >= 0 and explained(named) == M:
+                    seen.add(M)
+                elif active and explained(active[-1]) == M:
+                    seen.add(M)
+                elif named is None or named < 0 or nd[named][5] or explained(named) != A:
                     return None
-                seen = True
+                else:
+                    seen.add(A)
             for i in v["interrupts"]:
                 if any(tab[a]["kind"][0] == "KBlock" and nd[a][6] for a in anc(i)):
                     return None
@@ -76,10 +101,11 @@ class C05(InterpProp):
                 sibs = tab[tab[x]["parent"]]["children"]
                 for s_ in sibs[sibs.index(x) + 1:]:
                     if nd[s_][0] and not (nd[x][6] or nd[x][1] or not nd[x][0]):
-                        if not any(tab[a]["kind"][0] == "KAlarm" for a in anc(x)):
+                        e = explained(x)
+                        if e is None:
                             return None
-                        seen = True
-        return "C05-stale-generator-runs-lines-after-a-block-in-a-rearmed-alarm-body" if seen else None
+                        seen.add(e)
+        return "+".join(sorted(seen)) if seen else None
 
     def kind(self, case, obs):
         locked = [sum(1 for n in v["nodes"] if n[5]) for v in obs["views"]]
